@@ -60,10 +60,37 @@ func checkC17(c *Ctx, r *Report) {
 				r.Fail("C17.a", "R2 ORDER", name+"/"+tf, sk.pos(token.NoPos), "no "+tf+" in the generated parser")
 				continue
 			}
-			ok := len(fd.Body.List) == 1
-			if ok {
-				is, isIf := fd.Body.List[0].(*ast.IfStmt)
-				ok = isIf && printNode(sk.Fset, is.Cond) == "IsTrace" && is.Else == nil
+			// by paths: with IsTrace false nothing happens; every path that prints has tested IsTrace true and, apart
+			// from that, only looked at the function's own parameters (the case selection of TraceReduce)
+			ok := false
+			pe := newPathEnum(sk.Info)
+			for _, po := range paramObjs(sk.Info, fd) {
+				pe.rename[po] = "PARAM"
+			}
+			if paths, err := pe.Enumerate(fd.Body.List); err == nil && len(paths) > 0 {
+				ok = true
+				for _, p := range paths {
+					on, tested := false, false
+					for _, cd := range p.Conds {
+						s := cd.Atom.String()
+						switch {
+						case s == "main.IsTrace" || s == "IsTrace":
+							tested, on = true, cd.Pol
+						case strings.Contains(s, "PARAM"):
+						default:
+							ok = false // some other condition decides whether the trace is printed
+						}
+					}
+					effects := 0
+					for _, e := range p.Effects {
+						if e.Kind == "call" || e.Kind == "store" {
+							effects++
+						}
+					}
+					if !tested || (!on && effects > 0) {
+						ok = false
+					}
+				}
 			}
 			r.Check(ok, "C17.a", "R2 ORDER", name+"/"+tf+"-guarded-by-IsTrace", sk.pos(fd.Pos()), tf+" is exactly `if IsTrace { … }`", tf+" is not guarded by IsTrace alone")
 		}
